@@ -179,7 +179,7 @@ COMMON = (" Every other scenario is replayed on operands with warm caches, every
 ADDENDA = {
     "C01": "Also: index lists of another kind than the axis (float labels on int axes and vice versa), empty selections with a tolerance, "
            "sel / isel / take / nloc under both values of the indexing.by option.",
-    "C03": "Also: pointwise (broadcast=True) assignment, spec/Arrays.tla PutPoints / TakePoints with theorems PointsFrame, PointsReadBack, PointsErr "
+    "C03": "Also: pointwise (broadcast=True) assignment, spec/Arrays.tla PutPoints / TakePoints with theorems PointsFrame, PointsReadBack, PointsArr (whole pointwise read, TakePointsArr: observations only), PointsErr "
            "(2-d and 3-d, lists / masks / scalars / slices, label and position, cast, array right-hand sides).",
     "C05": "The session starts from one of three pairs of arrays (2-d sorted + 1-d unsorted; 3-d with unsorted and decreasing axes + 2-d; 1-d decreasing + "
            "2-d with a singleton dimension). Actions added: position index forms, DimArray(a, **metadata); queries for absent labels and plain look-ups "
